@@ -104,7 +104,8 @@ def genCallerAF (maxPriv : Nat) : Gen PacketAdaptationField := do
   let hasSplice ← chance 1 4
   let sc ← randField 8
   let espi ← randBool
-  return { pcr := if hasPCR then some pcr else none, hasPCR := hasPCR, randomAccessIndicator := rai, hasTransportPrivateData := hasPriv,
+  let di ← chance 1 6
+  return { discontinuityIndicator := di, pcr := if hasPCR then some pcr else none, hasPCR := hasPCR, randomAccessIndicator := rai, hasTransportPrivateData := hasPriv,
            transportPrivateData := priv, transportPrivateDataLength := priv.length, hasSplicingCountdown := hasSplice,
            spliceCountdown := if hasSplice then sc else 0, elementaryStreamPriorityIndicator := espi }
 
